@@ -313,6 +313,60 @@ func runC10(c *ctx, r *Report) error {
 			}
 		}
 	}
+	// two repositories whose root directories differ in letter case only (on a case-sensitive file system they are
+	// different repositories with their own configuration): every order, GOMAXPROCS 1 / 4 / 16, vs each file alone
+	{
+		twinA, twinB := filepath.Join(tmp, "Site"), filepath.Join(tmp, "site")
+		mkTwin := func(root, cfg string) string {
+			os.MkdirAll(filepath.Join(root, ".git"), 0o755)
+			os.MkdirAll(filepath.Join(root, ".github", "workflows"), 0o755)
+			os.WriteFile(filepath.Join(root, ".github", "actionlint.yaml"), []byte(cfg), 0o644)
+			p := filepath.Join(root, ".github", "workflows", "ci.yml")
+			os.WriteFile(p, []byte("on: push\njobs:\n  j:\n    runs-on: gpu-box\n    steps:\n      - run: echo ${{ vars.TOKEN_NAME }}\n"), 0o644)
+			return p
+		}
+		fa := mkTwin(twinA, "self-hosted-runner:\n  labels: [gpu-box]\nconfig-variables: [TOKEN_NAME]\n")
+		fb := mkTwin(twinB, "self-hosted-runner:\n  labels: []\nconfig-variables: []\n")
+		if st, err := os.Stat(fa); err == nil && st != nil && fa != fb {
+			if ia, ib := func() (os.FileInfo, os.FileInfo) { a, _ := os.Stat(twinA); b, _ := os.Stat(twinB); return a, b }(); ia != nil && ib != nil && !os.SameFile(ia, ib) {
+				want := map[string]string{}
+				for _, f := range []string{fa, fb} {
+					l, _ := actionlint.NewLinter(nopWriter{}, &actionlint.LinterOptions{Shellcheck: "", Pyflakes: ""})
+					errs, err := l.LintFile(f, nil)
+					if err != nil {
+						return err
+					}
+					want[f] = canon(errs)[f]
+				}
+				if want[fa] == want[fb] {
+					r.Notes = append(r.Notes, "warning: the case-twin repositories give the same diagnostics; attribution is not observable")
+				}
+				for k := 0; k < 12; k++ {
+					order := []string{fa, fb}
+					if k%2 == 1 {
+						order = []string{fb, fa}
+					}
+					runtime.GOMAXPROCS([]int{1, 4, 16}[(k/2)%3])
+					l, _ := actionlint.NewLinter(nopWriter{}, &actionlint.LinterOptions{Shellcheck: "", Pyflakes: ""})
+					errs, err := l.LintFiles(order, nil)
+					r.Evaluations++
+					if err != nil {
+						return err
+					}
+					per := canon(errs)
+					for _, f := range order {
+						if per[f] != want[f] {
+							r.finding("file-attributed-to-case-twin-repository", "a file of a repository whose root differs from another repository's root in letter case only gets that other repository's configuration",
+								Case{Op: "lintfiles", Input: map[string]string{"order": strings.TrimPrefix(order[0], tmp+"/") + " " + strings.TrimPrefix(order[1], tmp+"/")}, Impl: per[f], Model: want[f]})
+						}
+					}
+				}
+				r.nontrivial("case-twin-repositories")
+			} else {
+				r.Notes = append(r.Notes, "case-insensitive file system: the case-twin repository scenario was skipped")
+			}
+		}
+	}
 	r.sample(map[string]interface{}{"files": len(files), "repositories": []string{"repo", "repo2"}, "example_alone": alone[files[1]]})
 	// the external tools cannot be found (the default configuration on a machine without shellcheck / pyflakes): several files
 	// in one call, and the same Linter used for a second call — same results, and (race-detector build) no shared field
